@@ -206,8 +206,10 @@ def run(ck: Check) -> int:
                 rej += (not exp)
                 if bool(g) != exp:
                     kid = None
-                    if '\n' in n:
-                        kid = 'KF-D3p'      # `$` in look-aheads / the globstar divider / the NODIR regex
+                    if '\n' in n and ('!(' in p or '**' in p or nodir or fl & G.X):
+                        # `$` in the look-ahead of `!(`, in the globstar divider (written `**` or the MATCHBASE prefix), in the NODIR regex — nowhere else (narrowed after
+                        # seeded change C02f: `match` for `fullmatch` accepted `a/b\n` for the pattern `a/b`)
+                        kid = 'KF-D3p'
                     elif not info.start_safe:
                         kid = 'KF-D1p'
                     ck.report(Failing(f'{api}: path {n!r} pattern {p!r}: code {bool(g)}, documented {exp}',
@@ -222,6 +224,39 @@ def run(ck: Check) -> int:
                    'with duplicate/leading/trailing separators; segment patterns that can match the empty string and '
                    '`!(` outside the C01 scope are outside the documented semantics (oos)')
     ck.search('pathspec-vs-globmatch', s_search)
+
+    def s_empty(sr):
+        """the empty pattern (written as '', as a dangling backslash, as an empty SPLIT alternative, as an empty list member)
+        has the language {''}: it matches no path with a non-empty piece, with or without MATCHBASE (added after seeded change
+        C02e: the MATCHBASE prefix alone became the whole regex)"""
+        names = [n for n in paths if n.strip('/')]
+        for fl0 in (G.U, G.U | G.X, G.U | G.X | G.G, G.U | G.X | G.D, G.U | G.X | G.G | G.GL, G.U | G.X | G.E | G.D):
+            for pat, fl, what in (('', fl0, 'empty'), ('\\', fl0, 'dangling backslash'), (['', ''], fl0, 'empty list members'),
+                                  ('|', fl0 | G.S, 'empty SPLIT alternatives'), ('a.txt|', fl0 | G.S, 'SPLIT with an empty alternative'),
+                                  ('{,}', fl0 | G.B, 'empty BRACE alternatives')):
+                try:
+                    keep = set(G.globfilter(names, pat, flags=fl))
+                    one = {n for n in names if G.globmatch(n, pat, flags=fl)}
+                except Exception as e:      # noqa: BLE001
+                    sr.histogram['raises ' + type(e).__name__] = sr.histogram.get('raises ' + type(e).__name__, 0) + 1
+                    continue
+                base = 'a.txt' if isinstance(pat, str) and pat.startswith('a.txt') else None
+                for n in names:
+                    sr.evaluations += 1
+                    if base is not None:
+                        last = [x for x in n.split('/') if x][-1]
+                        exp = (last == base) if fl & G.X else (n.strip('/') == base and not n.startswith('/'))
+                        if fl & G.X and n.startswith('/'):
+                            continue        # rooted paths under MATCHBASE: C02's main search
+                    else:
+                        exp = False
+                    for api, got in (('globfilter', n in keep), ('globmatch', n in one)):
+                        if got != exp:
+                            ck.report(Failing(f'{api}: {what}: pattern {pat!r} path {n!r}: code {got}, documented {exp}',
+                                              {'api': 'glob.' + api, 'pattern': pat, 'path': n, 'flags': fl}, exp, got), None)
+        sr.distinct = 36
+        sr.note = s_empty.__doc__.replace('\n        ', ' ')
+    ck.search('empty-pattern', s_empty)
     if drv:
         drv.close()
     return ck.finish()
